@@ -160,6 +160,7 @@ struct Stats {
     decisions_with_outstanding_after_stale: u64,
     nontrivial: u64,
     redeclared: u64,
+    evals: u64,
 }
 
 fn expected_timeout(rtt: Duration, max: Duration) -> Duration {
@@ -462,6 +463,7 @@ fn gen_max(rng: &mut Rng) -> Duration {
 }
 
 fn flush(rep: &Report, st: &Stats) {
+    rep.evals(st.evals);
     for (k, v) in [
         ("poll.ready", st.polls_ready),
         ("poll.pending.outstanding", st.polls_pending_outstanding),
@@ -502,7 +504,7 @@ fn run_one(rep: &Report, max: Duration, ops: &[Op], st: &mut Stats, rt: &tokio::
 /// `n` = index of the history in its shard; only the first 200 000 per shard are entered into
 /// the distinct set (memory), all are counted in `histories.nontrivial`.
 fn run_one_n(rep: &Report, max: Duration, ops: &[Op], st: &mut Stats, rt: &tokio::runtime::Runtime, n: u64) {
-    rep.eval();
+    st.evals += 1; // flushed into the report by `flush` (one lock per shard instead of per history)
     let replay = json!({"max_ns": max.as_nanos() as u64, "ops": ops.iter().map(op_json).collect::<Vec<_>>()});
     let r = catch(|| rt.block_on(run_history(max, ops, st)));
     match r {
